@@ -5,6 +5,7 @@ by open(lanelet_assignment=True|False)).  Reference model: which obstacles are c
 assigned; geometric truth from crkit.geom (raw lanelet vertices, occupancy parameters, don't-care band).
 """
 import copy
+import math
 import os
 import shutil
 import tempfile
@@ -39,6 +40,28 @@ class Run(RunBase):
         self.stash = {}  # id -> (object, kind, assigned)  removed obstacles, kept for re-adding the same object
         self.dir = None
         self.last = "start"
+        self.shadow = None  # sibling instance after a deepcopy that keeps the original alive
+
+    _FIELDS = ("sc", "contained", "assigned", "stash")
+
+    def _swap(self):
+        cur = {f: getattr(self, f) for f in self._FIELDS}
+        for f in self._FIELDS:
+            setattr(self, f, self.shadow[f])
+        self.shadow = cur
+
+    def _check_shadow(self):
+        if self.shadow is None:
+            return
+        self._swap()
+        try:
+            self._check()
+        except Violation as v:
+            raise Violation(v.signature.replace("C07/", "C07/sibling-affected/", 1),
+                            "the OTHER copy of the scenario (made by an earlier deepcopy) is no longer consistent "
+                            "after an operation on this copy: " + v.message, v.detail)
+        finally:
+            self._swap()
 
     def close(self):
         if self.dir:
@@ -65,6 +88,8 @@ class Run(RunBase):
                         if ob is not None and min(op["time_steps"]) < ob.initial_state.time_step:
                             return False
             return True
+        if k == "swap":
+            return self.shadow is not None
         return k in ("restart", "check")
 
     # ------------------------------------------------------------------ the oracle
@@ -130,6 +155,8 @@ class Run(RunBase):
                 self.probe("partially-assigned-obstacle-checked")
             for t in ts_assigned:
                 center_t, shape_t, raw = self._truth(ob, t, polys)
+                st_now = ob.state_at_time(t) if isinstance(ob, DynamicObstacle) else ob.initial_state
+                pos_now = (float(st_now.position[0]), float(st_now.position[1]))
                 for where, c, s in self._recorded(ob, t):
                     for what, rec, truth in (("center", c, center_t), ("shape", s, shape_t)):
                         missing, extra = geom.compare_sets(rec, truth)
@@ -158,6 +185,13 @@ class Run(RunBase):
                 if sum(1 for v in shape_t.values() if v is True) >= 2:
                     self.probe("obstacle-on-several-lanelets")
                 if isinstance(ob, DynamicObstacle) and t > ob.initial_state.time_step:
+                    prev_pos = ob.state_at_time(t - 1).position
+                    moved = math.hypot(float(prev_pos[0]) - pos_now[0], float(prev_pos[1]) - pos_now[1])
+                    if 0 < moved < 0.01:
+                        pc = {i: geom.point_in_ring(poly, ring, (float(prev_pos[0]), float(prev_pos[1])))
+                              for i, (poly, ring) in polys.items()}
+                        if any(pc[i] is not None and center_t[i] is not None and pc[i] != center_t[i] for i in polys):
+                            self.probe("creeping-obstacle-crosses-boundary")
                     prev = ob.state_at_time(t - 1)
                     cur = ob.state_at_time(t)
                     if prev is not None and cur is not None and float(prev.position[0]) == float(cur.position[0]) \
@@ -187,11 +221,18 @@ class Run(RunBase):
     def apply(self, op):
         out = getattr(self, "_op_" + op["op"])(op)
         self._check()
+        if op["op"] != "swap":
+            self._check_shadow()
         self.note_state([self.last, sorted(self.contained.items()),
                          sorted((i, v if v in (True, False) else sorted(v)) for i, v in self.assigned.items())])
         return out
 
     def _op_check(self, op):
+        return "ok"
+
+    def _op_swap(self, op):
+        self._swap()
+        self.probe("continued-on-the-other-copy")
         return "ok"
 
     def _op_add(self, op):
@@ -276,8 +317,13 @@ class Run(RunBase):
         self.probe("restart-" + how)
         self.last = "restart:" + how
         if how == "deepcopy":
+            if op.get("keep"):
+                self.shadow = {"sc": self.sc, "stash": self.stash, "contained": dict(self.contained),
+                               "assigned": copy.deepcopy(self.assigned)}
+                self.probe("fork-keeps-original")
             self.sc, self.stash = copy.deepcopy((self.sc, self.stash))
             return "ok"
+        self.shadow = None if not op.get("keep") else self.shadow
         if self.dir is None:
             self.dir = tempfile.mkdtemp(prefix="c07-", dir=SCRATCH_ROOT)
         fmt = FileFormat.XML if how.startswith("xml") else FileFormat.PROTOBUF
@@ -348,7 +394,14 @@ def _readder(rng, run, cfg):
 
 def _restarter(rng, run, cfg):
     while True:
-        yield {"op": "restart", "how": rng.pick(cfg["restart_kinds"])}
+        if run.shadow is not None and rng.chance(0.4):
+            yield {"op": "swap"}
+            continue
+        how = rng.pick(cfg["restart_kinds"])
+        op = {"op": "restart", "how": how}
+        if how == "deepcopy":
+            op["keep"] = rng.chance(0.6)
+        yield op
 
 
 RESTARTS = ["deepcopy", "xml+assign", "pb+assign", "xml", "pb"]
@@ -357,12 +410,13 @@ RESTARTS = ["deepcopy", "xml+assign", "pb+assign", "xml", "pb"]
 class C07(Property):
     id = "C07"
     title = "Obstacle-lanelet assignment is geometrically correct and invertible"
-    tiers = {"quick": {"runs": 1600, "wall": 240, "chunk": 10}, "thorough": {"runs": 50000, "wall": 1700, "chunk": 25}}
+    tiers = {"quick": {"runs": 5000, "wall": 240, "chunk": 25}, "thorough": {"runs": 200000, "wall": 1700, "chunk": 50}}
     expected_probes = ["obstacle-on-several-lanelets", "shape-touches-lanelet-center-is-not-in", "assigned-shape-rect",
                        "assigned-shape-circ", "assigned-shape-poly", "assigned-shape-group", "remove-after-assign",
                        "readd-after-remove", "readd-after-remove-assigned", "restart-deepcopy", "restart-xml+assign",
                        "restart-pb+assign", "restart-xml", "dynamic-without-prediction-read-with-assignment",
-                       "partially-assigned-obstacle-checked", "standing-obstacle-turns-on-the-spot"]
+                       "partially-assigned-obstacle-checked", "standing-obstacle-turns-on-the-spot",
+                       "fork-keeps-original", "continued-on-the-other-copy", "creeping-obstacle-crosses-boundary"]
     assumptions = [
         "geometric truth comes from crkit.geom with its don't-care band; the footprint at a time step is read from the "
         "parameters of occupancy_at_time(t).shape (whether that occupancy is the right placement is C04)",
@@ -381,7 +435,7 @@ class C07(Property):
     def gen_universe(self, rng, cfg):
         ids = gen.IdAlloc(rng, 1, 300)
         net = gen.gen_network(rng, rows=rng.randint(1, 3), cols=rng.randint(1, 2), ids=ids, signs=False, lights=False,
-                              intersections=False, stop_lines=False, overlap=rng.chance(0.5), types=False)
+                              intersections=False, stop_lines=False, overlap=rng.chance(0.5), types=False, far=0.3)
         net.pop("_geom", None)
         obstacles = {}
         for j in range(rng.randint(1, 5)):
@@ -395,6 +449,31 @@ class C07(Property):
                     spec["shape"]["l"] *= 2.5
                     spec["shape"]["w"] *= 1.8
             obstacles[f"o{j}"] = spec
+        if rng.chance(0.3):
+            # a vehicle creeping across a lanelet boundary in tiny steps (the centre changes lanelet although
+            # consecutive positions are almost equal)
+            la = rng.pick(net["lanelets"])
+            k = rng.randrange(len(la["left"]) - 1)
+            side = rng.choice(["left", "right"])
+            bx = (la[side][k][0] + la[side][k + 1][0]) / 2
+            by = (la[side][k][1] + la[side][k + 1][1]) / 2
+            cx = (la["center"][k][0] + la["center"][k + 1][0]) / 2
+            cy = (la["center"][k][1] + la["center"][k + 1][1]) / 2
+            d = math.hypot(bx - cx, by - cy)
+            nx, ny = (bx - cx) / d, (by - cy) / d  # from the centre line towards the boundary
+            step = rng.choice([0.004, 0.004, 0.05, 0.6])
+            n = rng.randint(3, 6)
+            k0 = rng.uniform(0.3, n - 0.3)  # the boundary is crossed between two of the steps
+            th = math.atan2(ny, nx)
+            t0 = rng.randint(0, 2)
+            pts = [[bx + (i - k0) * step * nx, by + (i - k0) * step * ny] for i in range(n + 1)]
+            oid = ids.take()
+            obstacles["creeper"] = {
+                "id": oid, "role": "dynamic", "type": "CAR", "signal_series": [],
+                "shape": {"t": "rect", "l": rng.uniform(0.3, 2.0), "w": rng.uniform(0.3, 1.5)},
+                "init": {"t": t0, "pos": pts[0], "ori": th, "vel": step * 10, "acc": 0.0, "yaw": 0.0, "slip": 0.0},
+                "pred": {"kind": "traj", "states": [{"cls": "ks", "t": t0 + i, "pos": pts[i], "ori": th,
+                                                     "vel": step * 10, "steer": 0.0} for i in range(1, n + 1)]}}
         return {"network": net, "obstacles": obstacles}
 
     def new_run(self, universe, cfg):
